@@ -561,14 +561,14 @@ pub fn generate(rng: &mut Rng, tier: Tier, cases: &mut Vec<Case>) {
     // (vii) run_with_upper_bound: bounds around the true flow (F-1, F, F+1), 0, i32::MAX and a random value
     // in [0, F] (Dinic leaves its phase loop after the first phase whose accumulated flow exceeds the bound)
     let n_bounded = match tier {
-        Tier::Quick => 4000,
+        Tier::Quick => 2400,
         Tier::Thorough => 60000,
     };
     bounded_cases(rng, n_bounded, cases);
     // (viii) the same solver object run again (run / run_with_upper_bound): reported value and cut stay
     rerun_cases(rng, n_bounded / 2, cases);
     // (ix) high-degree nodes
-    hub_cases(rng, match tier { Tier::Quick => 180, Tier::Thorough => 3600 }, cases);
+    hub_cases(rng, match tier { Tier::Quick => 72, Tier::Thorough => 3600 }, cases);
 }
 
 fn bounded_cases(rng: &mut Rng, count: usize, cases: &mut Vec<Case>) {
